@@ -402,6 +402,8 @@ def run(chk):
     chk.guard(rule_r2, chk)
     chk.guard(rule_r4, chk)
     chk.guard(rule_r5, chk)
+    from .. import args as _args
+    chk.guard(_args.apply, chk, "C04-R90", {'equations', 'parsers', 'sources'}, 1)
     chk.assumptions = [
         "_shift_all_names is modelled on identifiers with optional [k]; its regex on arbitrary text is not decided",
         "regex behaviour on arbitrary nestings, Jinja, !for/!if expansion and substitution ordering are run-time text processing",
